@@ -50,7 +50,7 @@ def _mk_decoys():
 
 DECOYS = _mk_decoys()
 
-QUERIES = ("source", "safety", "trace", "has_import", "has_call", "has_nss_call", "imports",
+QUERIES = ("source", "safety", "trace", "interp_custom", "trace_custom", "has_import", "has_call", "has_nss_call", "imports",
            "unsafe_imports", "nonstd_imports", "dumps", "likely_safe_file")  # fmt: skip
 
 
@@ -75,6 +75,14 @@ def ask(p, q, data, path):
             with contextlib.redirect_stdout(io.StringIO()):
                 tree = Trace(Interpreter(p)).run()
             return ("source", ast.unparse(tree))
+        if q == "interp_custom":
+            # what the CLI does for the 2nd, 3rd... pickle of a stack
+            tree = Interpreter(p, first_variable_id=3, result_variable="result1").to_ast()
+            return ("source_custom", ast.unparse(tree))
+        if q == "trace_custom":
+            with contextlib.redirect_stdout(io.StringIO()):
+                tree = Trace(Interpreter(p, first_variable_id=3, result_variable="result1")).run()
+            return ("source_custom", ast.unparse(tree))
         if q == "has_import":
             return ("has_import", p.has_import)
         if q == "has_call":
@@ -94,7 +102,7 @@ def ask(p, q, data, path):
     except RecursionError:
         raise
     except Exception as e:  # noqa: BLE001
-        kind = "source" if q == "trace" else q
+        kind = {"trace": "source", "interp_custom": "source_custom", "trace_custom": "source_custom"}.get(q, q)
         return (kind, "raised", type(e).__name__)
     raise ValueError(q)
 
